@@ -447,6 +447,8 @@ def judge(OC, SC, info: Info, o_mod=None, s_mod=None, full=True, count=None):  #
             ro = _obs(op, xo)
             if ro[0] != "ok":
                 raise OriginalFails(f"slotmodel: {opname} of the ORIGINAL instance fails: {ro}")
+            if _fieldvals(ro[1], names) != _fieldvals(xo, names):
+                raise OriginalFails(f"slotmodel: {opname} of the ORIGINAL instance loses field values: {_fieldvals(ro[1], names)} != {_fieldvals(xo, names)}")
             rs = _obs(op, xs)
             tag = opname + (f"(protocol {PICKLE_PROTOCOLS[pi - 2]})" if opname == "pickle" else "")
             wit = f"{tag} of {xs!r} [{lab}]" + (" carrying tlmc_extra=7 in its __dict__" if with_attr else "")
